@@ -7,7 +7,7 @@ From LV Require Import Base.Bytes Base.Sx Model.Obj Model.Writer Model.Parser Mo
   Proofs.XrefTableProofs Proofs.ObjectRtProofs Proofs.SpellingProofs Proofs.SpellingObjProofs Proofs.SpellingFileProofs
   Proofs.LoadsFrameProofs Proofs.LoadsTableProofs.
 From LV Require Import Model.LoaderExt Proofs.LoaderExtProofs Proofs.LengthRefProofs.
-From LV Require Gen.SaveFmt.
+From LV Require Gen.SaveFmt Proofs.FilterProofsDict.
 From Coq Require Import Lia.
 Local Open Scope N_scope.
 
@@ -245,6 +245,19 @@ Section RefLenTable.
   Qed.
 
 
+  Lemma max_id_small : xref_max_id x0 < u32_max.
+  Proof.
+    unfold xref_max_id. apply N.le_lt_trans with (m := max_num nums).
+    - apply max_id_le; [lia|]. intros k v H. pose proof (entries_fun _ _ H) as En. unfold E in En.
+      destruct (entry k) as [a0 b0|off g|c i] eqn:Ee; cbn [entry_meaning] in En; try discriminate En.
+      + destruct (entry_inuse _ _ _ Ee) as [pre [tp [post [Eo [Ek _]]]]].
+        assert (Hin : In tp otops) by (rewrite Eo; apply in_or_app; right; left; reflexivity).
+        destruct (otop_ok tp Hin) as [_ [_ H2]]. unfold top_num in H2. rewrite Ek in H2. exact H2.
+      + exfalso. pose proof (entry_tentry_ok k) as K. rewrite Ee in K. exact K.
+    - destruct Hsmall as [_ [Hs _]]. unfold size in Hs. lia.
+  Qed.
+
+
   (* ---------- load_ext ---------- *)
   Variable dec : dict -> bytes -> option (dict * bytes).
   Variable can : dict -> bool.
@@ -311,7 +324,7 @@ Section RefLenTable.
                (gap_bytes (i_gap (find_istyle (s_objs st) li)) ++ body_of postl ++ xr)).
       + reflexivity.
       + vm_compute. lia.
-      + unfold get_offset. unfold top_num, tl in Hx. cbn [fst snd] in Hx. rewrite Hx, N.eqb_refl. reflexivity.
+      + unfold get_offset. unfold top_num, tl in Hx. cbn [fst snd] in *. rewrite Hx, N.eqb_refl. reflexivity.
       + subst offl. unfold F, blen. rewrite Eol, body_of_app, !app_length. lia.
       + subst offl. unfold F. rewrite Eol. replace (N.of_nat (length hdr)) with (blen hdr) by reflexivity.
         rewrite from_at_offset. unfold top_text, tl. cbn [fst snd]. rewrite <- app_assoc. reflexivity.
@@ -391,3 +404,21 @@ Section RefLenTable.
         rewrite Ek. destruct id; cbn [fst snd] in *. subst. reflexivity.
   Qed.
 End RefLenTable.
+
+Theorem loads_table_reflen_file st a t file dec can :
+  s_xref st = XTable t -> s_ostms st = [] -> ref_write st a = Some file ->
+  Forall (top_ok2 a) (LoadsTableProofs.tops st a) -> utf8_decode (a_version a) <> None ->
+  (spell_wf (ODict (LoadsTableProofs.trd a)) (t_trailer t) /\ (nest (ODict (LoadsTableProofs.trd a)) <= MAX_DEPTH)%nat /\
+   dict_get (a_trailer a) RefWriter.K_Size = None /\ dict_get (a_trailer a) K_Prev = None /\
+   dict_get (a_trailer a) K_Encrypt = None) ->
+  (LoadsTableProofs.xpos st a <= u32_max /\ LoadsTableProofs.size a <= u32_max /\ 25 < LoadsTableProofs.xpos st a) ->
+  (9 + length (sx_mid (s_sx_eol1 st) (s_sx_sp1 st) (LoadsTableProofs.xpos st a) (s_sx_sp2 st) (s_sx_eol2 st)) <= 25)%nat ->
+  exists d, load_ext dec can file = LOk d XTTable /\
+    d_version d = a_version a /\ d_trailer d = LoadsTableProofs.t0 a t /\
+    (forall tp, In tp (LoadsTableProofs.tops st a) -> lookup (d_objects d) (fst (fst tp)) = Some (loaded_top tp)) /\
+    (forall id o, lookup (d_objects d) id = Some o -> exists tp, In tp (LoadsTableProofs.tops st a) /\ fst (fst tp) = id).
+Proof.
+  intros Hxt Hos Hw Htops Hu Htr Hsmall Hsx.
+  destruct (ref_write_table st a t file Hxt Hos Hw) as [-> [Hnd [_ [Hj Hv]]]].
+  apply (loads_table_reflen st a t); try assumption. split; assumption.
+Qed.
